@@ -8,7 +8,7 @@ class Ctx(EV.Ctx):
         if tag not in self._mm: self._mm[tag] = M.Mir('/verif/.work/dev.mir' if tag == 'whirlpool' else os.environ.get('SDK_MIR', '/verif/.work/sdk.mir'))
         return self._mm[tag]
 ctx = Ctx('C20', 'quick', 0, 8, None)
-for n, t in c20.tasks():
+for n, t in c20.tasks() + c20.thorough_tasks():
     if len(sys.argv) > 1 and sys.argv[1] not in n: continue
     t0 = time.time()
     try: t(ctx)
